@@ -10,32 +10,37 @@ props = {l["id"]: l for l in map(json.loads, open(os.path.join(ROOT, "properties
 VERUS = "contract-based deductive verification: Verus/z3 on real functions extracted from /repo each run"
 KANI = "contract-style Kani/CBMC harnesses woven into a scratch copy of the real crate"
 NOTE = ("Trusted: Verus/z3/rustc, vstd's std specifications, the axioms, assumed specifications and stand-ins listed per run in "
-        "evidence.coverage.trusted_base (string model A1-A7, slice::Iter::position, slice_all/any/find wrappers, finl_unicode "
-        "classifiers, SourceDiag/Located::new/Recover stand-ins, bitflags stand-ins generated from the source), the extraction "
-        "tool (tools/vx + tools/vgen.py: insert-only splicing plus the logged rewrites X1-X8, fidelity-checked every run). "
+        "evidence.coverage.trusted_base (string model A1-A9, two UTF-8 bridge facts in the lexer unit, slice::Iter::position, slice_all/any/find/rposition "
+        "wrappers, the Peekable::peek model, f64 operations total, finl_unicode classifiers, SourceDiag/Located::new/Recover "
+        "stand-ins, bitflags stand-ins generated from the source), the extraction "
+        "tool (tools/vx + tools/vgen.py: insert-only splicing plus the logged rewrites X1-X9, fidelity-checked every run). "
         "Functions listed under assumed_contracts are stubs with assumed contracts, not proofs. Kani: CBMC/CaDiCaL bit-precise, "
         "termination not proved; bounded harnesses are listed under bounded_not_counted and never counted as discharged.")
 
 CLAIMS = {
     "C02": ("proof", "Partial. Parser-stage extension gates as postconditions of the real functions: with COMPONENT_MODIFIERS off "
             "`modifiers()` consumes nothing; with COMPONENT_ALIAS off `parse_alias` returns no alias and reports nothing and "
-            "`check_alias` reports nothing; `BlockParser::extension` is exactly the flag test. Analysis-stage gates, the quantity "
-            "gates and the composition to whole-recipe equality are not decided.", VERUS),
+            "`check_alias` reports nothing; with RANGE_VALUES off (or without a `-`) a value is never read as a range; a quantity "
+            "with a `%` separator is never reinterpreted by the ADVANCED_UNITS path; `BlockParser::extension` is exactly the flag "
+            "test. Analysis-stage gates and the composition to whole-recipe equality are not decided.", VERUS),
     "C03": ("proof", "Partial. Every panic!/assert!/debug_assert!/unwrap/expect/index/slice/arithmetic-overflow site and every loop's "
-            "termination in the functions under contract (lexer, token stream, text, block parser, section, metadata entry, text "
-            "block, step parser incl. ingredient/cookware/timer, parse_block) is a discharged Verus obligation under the function's "
+            "termination in the functions under contract (lexer, token stream, text, block parser, block splitter "
+            "pull_line/next_block/next_metadata_block, section, metadata entry, text block, quantity parser, step parser incl. "
+            "modifiers/ingredient/cookware/timer, parse_block, build_ast) is a discharged Verus obligation under the function's "
             "precondition, and preconditions are discharged at every call site inside the unit list; plus Kani: aisle span "
-            "computation (all sub-slices), colour index, HhMm time format (bounded). Entry points outside are listed in "
-            "evidence.not_covered.", VERUS + " + " + KANI),
+            "computation (all sub-slices), colour index, HhMm time format (bounded). One open known finding: build_ast reaches "
+            "`todo!()` on a front-matter event (D7). Entry points outside are listed in evidence.not_covered.", VERUS + " + " + KANI),
     "C04": ("proof", "Token spans tile the input on char boundaries; Span::new requires start<=end at every covered call site; every "
             "Text built by BlockParser::text has faithful, ordered fragments inside the token range and a span on char boundaries; "
             "every diagnostic label and every Located span built in the covered parser functions satisfies Span::ok (in bounds, on "
             "char boundaries); component events are located exactly at the bytes they consumed. Analysis-stage labels not decided.", VERUS),
-    "C05": ("proof", "Partial. Conservation chain under contract: bytes=tokens (TokenStream::next); a failed with_recover returns every "
-            "token; BlockParser::text covers every token that can hold a letter or digit; parse_step, metadata_entry, named sections, "
-            "parse_block: every such token of the block lies in the span of an event queued by the call, and the block is fully "
-            "consumed (finish). Not decided: front-matter split, block splitter (next_block), blank-name sections and `>` text "
-            "paragraphs (depend on the assumed contract of Text::is_text_empty).", VERUS),
+    "C05": ("proof", "Partial. Conservation chain under contract: bytes=tokens (TokenStream::next); next_block takes a prefix of the token "
+            "stream, leaves out only blank tokens, hands the rest to the block parser and the events reach the parser's own queue "
+            "(the &mut borrow of the queue is followed by prophecy); a failed with_recover returns every token; BlockParser::text "
+            "covers every token that can hold a letter or digit; parse_step, metadata_entry, named sections, parse_block: every "
+            "such token of the block lies in the span of an event queued by the call, and the block is fully consumed (finish). "
+            "Not decided: front-matter split, the composition over all blocks (Iterator::next glue), blank-name sections and `>` "
+            "text paragraphs.", VERUS),
     "C07": ("proof", "Partial. Leaf parse-stage checks as postconditions: check_modifiers / check_empty_name emit exactly one error iff "
             "the forbidden construct is present; section / metadata_entry / check_alias / check_note / comp_body emit at most one "
             "diagnostic of the documented severity; all diagnostics queued by component parsers are Error/Warning events "
@@ -63,8 +68,10 @@ CLAIMS = {
             "(quick) / all ASCII (thorough): no overflow, no panic; thorough adds the value law (documented HhMm forms give exactly "
             "60h+m, too-large values are refused). Other accessors (units, servings, tags, author, locale) not decided.", KANI + " (bounded stand-in, labelled bounded)"),
     "C17": ("proof", "Partial. The local mechanisms: is_empty_token is exactly {whitespace, comments, newline}; ws_comments skips only "
-            "such tokens; comments never enter text fragments (fragments are faithful slices outside comment tokens). The "
-            "metamorphic relation itself (two parses compared) is not decided.", VERUS),
+            "such tokens; comments never enter text fragments (fragments are faithful slices outside comment tokens); a block "
+            "comment ends at the first `-]`; the block splitter drops only blank tokens, trims trailing newlines, and a line "
+            "starting with `>>` or `=` is always a block of its own. The metamorphic relation itself (two parses compared) is not "
+            "decided.", VERUS),
 }
 
 NA_REASON = {
